@@ -269,6 +269,24 @@ def run(P, R, tier):
         R.floor('C20.e', 'geometry agreement comprehensions in __finalize__', ncomp, 1)
         R.check(agrees, 'C20.e', f, None, 'the active geometry is adopted only when all geo inputs agree on it', 'the active geometry is adopted without checking that the inputs agree',
                 construct='len(geometries) == 1', nontrivial=False)
+    # C20.f (seed S10: dask identifies collections by `tokenize`; from_pandas of two frames with equal tokens yields ONE collection): the token of a
+    # GeoDataFrame includes its active geometry, otherwise `dd.from_pandas(df.set_geometry(other))` silently returns the frame made from `df`
+    R.assume('S10: dask reuses collections whose inputs have equal tokens (dask.base.tokenize / normalize_token dispatch)')
+    toks = []
+    for g_ in P.mods['spatialpandas.dask'].funcs.values():
+        for d_ in getattr(g_.node, 'decorator_list', []):
+            if isinstance(d_, ast.Call) and 'normalize_token' in norm(d_.func) and d_.args and norm(d_.args[0]).endswith('GeoDataFrame'):
+                toks.append(g_)
+    if not toks:
+        R.bad('C20.f', ('spatialpandas/dask.py', 'normalize_token'), None, 'no dask token normaliser is registered for GeoDataFrame: the inherited pandas one ignores `_geometry`, so frames that differ only in '
+              'their active geometry have the same token and dd.from_pandas returns the first one for both (meta, partitions and results use the wrong column)',
+              construct='GeoDataFrame token includes the active geometry')
+    for g_ in toks:
+        rets = [s_ for s_ in walk_own(g_.node) if isinstance(s_, ast.Return) and s_.value is not None]
+        ok_ = bool(rets) and all(any(isinstance(x, ast.Attribute) and x.attr in ('_geometry',) or (isinstance(x, ast.Attribute) and x.attr == 'name' and 'geometry' in norm(x.value))
+                                     for x in ast.walk(astq.expand(g_, s_.value))) for s_ in rets)
+        R.check(ok_, 'C20.f', g_, rets[0] if rets else None, 'the dask token of a GeoDataFrame includes its active geometry',
+                'the dask token of a GeoDataFrame does not include its active geometry: frames differing only in it collapse into one collection', construct='GeoDataFrame token includes the active geometry')
     mn = P.func('spatialpandas.dask', 'meta_nonempty_dataframe')
     okmn = False
     for c in astq.own_calls(mn):
